@@ -148,9 +148,37 @@ Section Ops.
   Definition clear (t : table) : table :=
     mkTable [] (fun _ _ => []) (fun _ => None) (attrs t) (iattrs t).
 
+  (* The bulk entry points add_objects(_no_lock) / remove_objects(_no_lock) / update_objects(_no_lock)
+     (and DescriptorsLookup's apply_map variants) are plain loops over the single-object operation: an
+     exception raised for one element propagates at once.  A rejected batch therefore is NOT all-or-nothing:
+     it has PREFIX semantics -- the elements before the offending one stay stored and indexed, the offending
+     one is rolled back by _mk_indices, the elements behind it are never looked at. *)
+  Fixpoint add_many (t : table) (os : list oid) : table * result :=
+    match os with
+    | [] => (t, ROk)
+    | o :: r => let '(t1, x) := add t o in
+                match x with ROk => add_many t1 r | _ => (t1, x) end
+    end.
+
+  (* remove_objects: unknown objects (and None, an identity that is never stored) are skipped *)
+  Fixpoint remove_many (t : table) (os : list oid) : table * result :=
+    match os with
+    | [] => (t, ROk)
+    | o :: r => remove_many (fst (remove t o)) r
+    end.
+
+  (* update_objects: stops at the first unknown object (ValueError) or rejected re-index (KeyError) *)
+  Fixpoint update_many (t : table) (os : list oid) : table * result :=
+    match os with
+    | [] => (t, ROk)
+    | o :: r => let '(t1, x) := update t o in
+                match x with ROk => update_many t1 r | _ => (t1, x) end
+    end.
+
   Inductive op :=
   | Add (o : oid) | Remove (o : oid) | Update (o : oid) | Clear
-  | SetAttr (o : oid) (i : nat) (v : kval).
+  | SetAttr (o : oid) (i : nat) (v : kval)
+  | AddMany (os : list oid) | RemoveMany (os : list oid) | UpdateMany (os : list oid).
 
   Definition step (t : table) (p : op) : table * result :=
     match p with
@@ -161,6 +189,9 @@ Section Ops.
     | SetAttr o i v =>
         (mkTable (objs t) (idxs t) (refs t)
                  (fun o' j => if Z.eqb o o' && Nat.eqb i j then v else attrs t o' j) (iattrs t), ROk)
+    | AddMany os => add_many t os
+    | RemoveMany os => remove_many t os
+    | UpdateMany os => update_many t os
     end.
 
   Fixpoint run (t : table) (ops : list op) : table * list result :=
@@ -195,7 +226,12 @@ Section Ops.
   Fixpoint run_obs (t : table) (keys : list okey) (os : list oid) (ops : list op) : list (Z * obs) :=
     match ops with
     | [] => []
-    | p :: r => let '(t1, x) := step t p in (result_code x, observe t1 keys os) :: run_obs t1 keys os r
+    | p :: r =>
+        let '(t1, x) := step t p in
+        match p with
+        | SetAttr _ _ _ => run_obs t1 keys os r      (* application state only: the table is not observed again *)
+        | _ => (result_code x, observe t1 keys os) :: run_obs t1 keys os r
+        end
     end.
 End Ops.
 
